@@ -1069,8 +1069,11 @@ class Directive:
         self.description = description
         self.locations = locations
         self.arguments = args if args is not None else []
-        self.argument_map = {arg.name: arg for arg in self.arguments}
         self.node = node
+
+    @property
+    def argument_map(self) -> Dict[str, Argument]:
+        return {arg.name: arg for arg in self.arguments}
 
 
 def is_input_type(type_: GraphQLType) -> bool:
